@@ -168,3 +168,12 @@ CLAIMED["C20"] = (
  "Does not decide the Fenwick prefix sums nor the index translation itself (numeric loop invariants).",
  COMMON_NOTE,
  "DESIGN.md section 5 C20")
+
+CLAIMED["C06"] = (
+ "who-may-call on the codec connection, loop-variable (phi) / captured-cell update analysis with guard literals for the reassembly state, value identity of copy destination/count, feature-set agreement between sync and async twins",
+ "Partial static necessary-condition analysis. Decides that only nextFrame/asyncNextFrame read the codec connection, that in both message readers each data payload is copied to b[total:] with the total advancing by "
+ "exactly the count copied and being what is reported, that the type comes from the first data frame only, that the continuation flag is !FIN of the data frame, that control frames between fragments leave the "
+ "reassembly state untouched and go to the control callback only, and that the blocking and asynchronous variants share their vocabulary of errors, accessors, limits and state constants modulo the sync/async renaming. "
+ "Does not decide byte-identical payloads for all fragmentations x segmentations (runtime values).",
+ COMMON_NOTE,
+ "DESIGN.md section 5 C06")
